@@ -117,7 +117,9 @@ Qed.
 Lemma readListPtr_inv strict sid s base val lp : readListPtr strict sid s base val = Ok lp ->
   exists addr, element base (ptr_offset val) 8 = Some addr /\
     ((listType val = 7 /\ exists hdr, readRawPointer s addr = Ok hdr /\ pointerType hdr = structPointer /\
-        addr + 8 <= maxSegmentSize /\
+        addr + 8 <= maxSegmentSize /\ (strict = true -> 0 <= s32 (ptr_offset hdr)) /\
+        (exists ts, times (totalSize (structSize hdr)) (s32 (ptr_offset hdr)) = Some ts /\
+                    regionInBounds s (addr + 8) ts = true) /\
         lp = mkPtr true sid (addr + 8) (s32 (ptr_offset hdr)) (structSize hdr) 0 KList true false false) \/
      (listType val = 1 /\ lp = mkPtr true sid addr (numListElements val) (mkOS 0 0) 0 KList false true false) \/
      (listType val <> 7 /\ listType val <> 1 /\ exists es, elementSize val = Some es /\
@@ -130,10 +132,12 @@ Proof.
   - destruct (readRawPointer s addr) as [hdr| |] eqn:ER; cbn [bind]; try discriminate.
     destruct (addSize addr 8) as [addr'|] eqn:EA; [|discriminate]. apply addSize_spec in EA. destruct EA as [-> EA].
     destruct (negb (pointerType hdr =? structPointer)) eqn:EP; [discriminate|].
-    destruct (strict && _); [discriminate|].
-    destruct (times _ _) as [ts|]; [|discriminate]. destruct (negb (regionInBounds s (addr + 8) ts)); [discriminate|].
+    destruct (strict && (s32 (ptr_offset hdr) <? 0)) eqn:ESt; [discriminate|].
+    destruct (times _ _) as [ts|] eqn:ET; [|discriminate]. destruct (negb (regionInBounds s (addr + 8) ts)) eqn:ERB; [discriminate|].
     intros H. apply Ok_inj in H. exists addr. split; [reflexivity|]. left. split; [lia|].
-    exists hdr. split; [exact ER|]. split; [lia|]. split; [exact EA|]. auto.
+    exists hdr. split; [exact ER|]. split; [lia|]. split; [exact EA|].
+    split; [intros ->; cbn [andb] in ESt; lia|]. split; [|auto].
+    exists ts. split; [exact ET|]. destruct (regionInBounds s (addr + 8) ts); [reflexivity|discriminate].
   - destruct (listType val =? 1) eqn:E1.
     + intros H. apply Ok_inj in H. exists addr. split; [reflexivity|]. right. left. split; [lia|auto].
     + destruct (elementSize val) as [es|] eqn:EE; [|discriminate].
@@ -258,7 +262,7 @@ Proof.
       unfold obj_start in *. rewrite Hc in *.
       assert (Hoff8 : 8 <= p_off h <= 4294967288).
       { destruct (in_seg_elim _ _ _ _ Hin) as (G1 & G2 & _). lia. }
-      destruct D as [(_ & hdr & ERd & _ & _ & ->)|[(X & _)|(X & _)]]; try (rewrite Vl, Rl in X; lia).
+      destruct D as [(_ & hdr & ERd & _ & _ & _ & _ & ->)|[(X & _)|(X & _)]]; try (rewrite Vl, Rl in X; lia).
       rewrite (read_of_word_at _ _ _ _ Wtag) in ERd by lia. apply Ok_inj in ERd. subst hdr.
       cbn [p_seg p_off p_len p_size p_comp p_bit]. rewrite Ts, To, Hb. rewrite (s32_id (p_len h)) by lia.
       replace (p_off h - 8 + 8) with (p_off h) by lia. reflexivity.
